@@ -16,8 +16,9 @@ from pathlib import Path
 
 VERIF = Path(__file__).resolve().parent.parent
 SPEC = VERIF / "spec"
-EVIDENCE = VERIF / "evidence"
-REPLAYS = VERIF / "replays"
+# (tools/seedtest.py redirects both when it evaluates a patched scratch copy, so that registered evidence is never overwritten by such runs)
+EVIDENCE = Path(os.environ.get("VERIF_EVIDENCE_DIR", VERIF / "evidence"))
+REPLAYS = Path(os.environ.get("VERIF_REPLAYS_DIR", VERIF / "replays"))
 REPO = Path(os.environ.get("VERIF_REPO", "/repo"))
 TLA_JARS = "/opt/veriftools/tla/tla2tools.jar:/opt/veriftools/tla/CommunityModules-deps.jar"
 NCPU = min(16, os.cpu_count() or 1)
@@ -286,7 +287,7 @@ def report(run, pid, vlist, trace_by_tid, sig_of=None):
     """Turn V verdict tuples (["V", tid, clause, detail]) into VIOLATION / KNOWN-FINDING lines for
     property `pid`.  Only clauses of that property count.  Returns number of (unlisted) violations."""
     known = load_findings()
-    REPLAYS.mkdir(exist_ok=True)
+    REPLAYS.mkdir(parents=True, exist_ok=True)
     nviol = 0
     seen_sig = {}
     for v in vlist:
@@ -314,7 +315,7 @@ def report(run, pid, vlist, trace_by_tid, sig_of=None):
 
 
 def write_evidence(run, pid, coverage, assumptions=None, level="model_checking"):
-    EVIDENCE.mkdir(exist_ok=True)
+    EVIDENCE.mkdir(parents=True, exist_ok=True)
     ev = {
         "property_id": pid,
         "tier": run.tier,
